@@ -99,8 +99,12 @@ def twins(ctx, rep, clause):
             ctor_fields = None
             for st in tail:
                 if isinstance(st, ast.Assign) and isinstance(st.targets[0], ast.Name) and \
-                        _strip_copy(st.value) == 'self' and _strip_copy(st.value) != norm_stmt(st.value):
+                        _strip_copy(st.value) == 'self':
                     copy_var = st.targets[0].id
+                    ob(rep, 'SIB-twin', m.fq, f'{name}: the other branch works on a copy of self',
+                       _strip_copy(st.value) != norm_stmt(st.value), norm_stmt(st),
+                       f'`{norm_stmt(st)}` aliases self: the non-inplace form edits the annotation it was called on',
+                       m.loc(st), clause)
                 if isinstance(st, ast.Return) and isinstance(st.value, ast.Call) and \
                         norm_stmt(st.value.func) == 'ProFormaAnnotation':
                     ctor_fields = {kw.arg.lstrip('_'): _strip_copy(kw.value) for kw in st.value.keywords}
